@@ -61,7 +61,10 @@ pub fn run(rng: &mut Rng, n: usize, outdir: &std::path::Path, flavour: &str) {
                         } else if shuffle {
                             let quiet: Vec<&Move> = ms.iter().filter(|x| x.move_type == MoveType::Quiet && x.piece_type != crate::pieces::Piece::Pawn).collect();
                             if !quiet.is_empty() { **rng.pick(&quiet) } else { *rng.pick(&ms) }
-                        } else { *rng.pick(&ms) };
+                        } else {
+                            let corner: Vec<&Move> = ms.iter().filter(|x| x.move_type == MoveType::Capture && [0u8, 7, 56, 63].contains(&x.to)).collect();
+                            if !corner.is_empty() && rng.chance(2, 3) { **rng.pick(&corner) } else { *rng.pick(&ms) }
+                        };
                         played.push(m);
                         b.make_move(&m);
                     }
